@@ -662,9 +662,22 @@ fn c16_map_oracle<T: El + crate::serde_impls::SerdeEl + PartialEq>(w: &mut MapWo
             if T::ZST {
                 return Ok(0);
             }
-            let hint = [Some(n), None, Some(0), Some(1_000_000_000)][variant - 1];
+            let hint = [Some(n), None, Some(0), Some(1_000_000_000), None, Some(n)][variant - 1];
             crate::hasher::set_default_hb(w.cfg.hk, w.cfg.seed.wrapping_add(variant as u64));
-            let de: MapDeserializer<_, DeError> = MapDeserializer::new(LyingIter { inner: order.clone().into_iter(), hint });
+            // variants 5 and 6: every key also occurs earlier with a stale value (the last one wins)
+            let mut input: Vec<(u32, u32)> = vec![];
+            if variant >= 5 {
+                for &(k, v) in order.iter().rev() {
+                    input.push((k, (v + 1) % 3));
+                }
+                for (i, &(k, v)) in order.iter().enumerate() {
+                    if i % 2 == 0 {
+                        input.push((k, (v + 2) % 3));
+                    }
+                }
+            }
+            input.extend(order.iter().copied());
+            let de: MapDeserializer<_, DeError> = MapDeserializer::new(LyingIter { inner: input.into_iter(), hint });
             let got = window(|| crate::chain::M::<T, T>::deserialize(de)).map_err(|e| Viol::new("mismatch", format!("deserialize failed: {}", e)))?;
             let mut g: Vec<(u32, u32)> = got.iter().map(|(k, v)| (k.id(), v.id())).collect();
             g.sort();
@@ -720,8 +733,8 @@ fn c16_set_oracle<T: El + crate::serde_impls::SerdeEl + PartialEq>(w: &mut SetWo
 pub fn run_e3s(spec: &ShardSpec, cur: Option<&str>) -> Outcome {
     use crate::elem::Tk;
     match (spec.prop.as_str(), spec.world.as_str(), spec.ty.as_str()) {
-        ("C16", "map", "u32") => run_singles::<MapWorld<u32>>(spec, cur, "mut1+ch0+shape", 5, &c16_map_oracle::<u32>),
-        ("C16", "map", "tk") => run_singles::<MapWorld<Tk>>(spec, cur, "mut1+ch0+shape", 5, &c16_map_oracle::<Tk>),
+        ("C16", "map", "u32") => run_singles::<MapWorld<u32>>(spec, cur, "mut1+ch0+shape", 7, &c16_map_oracle::<u32>),
+        ("C16", "map", "tk") => run_singles::<MapWorld<Tk>>(spec, cur, "mut1+ch0+shape", 7, &c16_map_oracle::<Tk>),
         ("C16", "map", "zst") => run_singles::<MapWorld<()>>(spec, cur, "mut1+ch0+shape", 1, &c16_map_oracle::<()>),
         ("C16", "set", "u32") => run_singles::<SetWorld<u32>>(spec, cur, "skey+sshape", 5, &c16_set_oracle::<u32>),
         ("C16", "set", "tk") => run_singles::<SetWorld<Tk>>(spec, cur, "skey+sshape", 5, &c16_set_oracle::<Tk>),
